@@ -342,6 +342,30 @@ func doRun(req *RunReq) (*RunRes, error) {
 		tracer := startTrace(req)
 		if rec != nil {
 			rec.cancel = cancel
+			if req.TraceInstr {
+				// what the bytecode machine specification needs to know about the program
+				lens := map[string]int{}
+				for name, ins := range compiled.Functions {
+					lens[name] = len(ins)
+				}
+				sigs := map[string]any{}
+				if m, ok := mods[req.Entry]; ok {
+					for _, fn := range m.Functions {
+						np := 0
+						for _, p := range fn.Parameters.List {
+							if !p.IsSingletonExtractor {
+								np++
+							}
+						}
+						if mangled, ok := compiled.Mappings.Functions[fn.Ident.Ident()]; ok {
+							sigs[mangled] = map[string]any{"np": np, "ret": fn.ReturnType.Kind() != ast.NullTypeKind && fn.ReturnType.Kind() != ast.NeverTypeKind}
+						}
+					}
+				}
+				l := limitsOf(req)
+				rec.add(map[string]any{"e": "Prog", "c": -1, "len": lens, "sig": sigs,
+					"lim": map[string]any{"call": l.CallStackMaxSize, "stack": l.StackMaxSize, "mem": l.MaxMemorySize}})
+			}
 		}
 		vm := hmsrt.NewVM(compiled, exec, &ctx, &cancel, homescript.TestingVmScopeAdditions(), limitsOf(req))
 		if rec != nil {
